@@ -299,7 +299,8 @@ class Parser:
             return ("array", els)
         if k == "p" and p == "{":
             return ("blockexpr", self.block())
-        if k == "p" and p == "|": self.fail("closure")
+        if k == "p" and p == "|": return self.closure()
+        if k == "p" and p == "||": self.fail("closure without parameters")
         if k == "id":
             if p == "if":
                 self.next()
@@ -319,6 +320,19 @@ class Parser:
             return ("path", segs)
         self.fail("expression expected")
 
+
+    def closure(self):
+        """`|x: T, y: U| body` (typed parameters only, no `move`); body = block or expression"""
+        self.expect("|"); params = []
+        while not self.accept("|"):
+            pn = self.ident()
+            if not self.accept(":"): self.fail("closure parameter without a type")
+            params.append((pn, self.ty()))
+            if not self.accept(","): self.expect("|"); break
+        if self.peek() == "->": self.fail("closure with a declared return type")
+        if self.peek() == "{": body = self.block()
+        else: body = ([], self.expr())
+        return ("closure", params, body)
 
     def struct_lit(self, name):
         """`Name { f: e, g }` (field shorthand allowed; no `..base`)"""
@@ -479,6 +493,7 @@ class Var:
         v = Var(self.kind, list(self.lean) if isinstance(self.lean, list) else self.lean, self.ty,
                 list(self.init) if isinstance(self.init, list) else self.init, self.rust)
         v.isref, v.vec, v.mut = self.isref, self.vec, self.mut
+        if hasattr(self, "closure"): v.closure = self.closure
         return v
     def names(self): return self.lean if isinstance(self.lean, list) else [self.lean]
 
@@ -531,6 +546,9 @@ def strip_paren(e):
     return e
 
 
+CLOSURE_CAPS = {}      # per function (set by FnTranslate.signature): closure local -> variables its body mentions
+
+
 def uses(e, acc=None):
     """rust variable names occurring in an AST fragment (expressions, statements, blocks), conservatively"""
     acc = set() if acc is None else acc
@@ -540,6 +558,7 @@ def uses(e, acc=None):
             return acc
         if e and e[0] == "call":
             for a in e[2]: uses(a, acc)
+            if len(e[1]) == 1 and e[1][0] in CLOSURE_CAPS: acc |= CLOSURE_CAPS[e[1][0]]     # a call of a local closure reads its captures
             return acc
         for x in e: uses(x, acc)
     elif isinstance(e, list):
@@ -615,7 +634,7 @@ class FnLower:
     # ---------------------------------------------------------------- types
     def wty(self, t, what="type"):
         if t[0] == "name" and t[1] == "isize": return "i64"            # 64-bit target (the harness): isize = i64
-        if t[0] == "name" and t[1] in ("u64", "usize", "u8", "u128", "bool", "i64"): return t[1]
+        if t[0] == "name" and t[1] in ("u64", "usize", "u8", "u128", "bool", "i64", "u32"): return t[1]
         self.fail(f"{what} {t}")
 
     # ---------------------------------------------------------------- liveness
@@ -732,6 +751,8 @@ class FnLower:
         if k == "ref": r = c(e[2]); return None if r is None else "&" + r
         if k == "bin":
             l, r = c(e[2]), c(e[3]); return None if l is None or r is None else f"{l} {e[1]} {r}"
+        if k == "index":
+            l, r = c(e[1]), c(e[2]); return None if l is None or r is None else f"{l}[{r}]"
         return None
 
     def abstracted(self, e, env):
@@ -741,6 +762,20 @@ class FnLower:
         if c is None or c not in self.abs: return None
         self.abs_used.add(c)
         return (c, self.abs[c])
+
+    def abs_in(self, x, env, acc=None):
+        """abstracted inputs (binder, type) whose accessor chain occurs inside the AST fragment x (a loop captures them)"""
+        acc = [] if acc is None else acc
+        if isinstance(x, list):
+            for y in x: self.abs_in(y, env, acc)
+        elif isinstance(x, tuple) and x:
+            if x[0] in ("field", "mcall", "bin", "cast", "un", "call", "path", "paren", "deref", "ref"):
+                try: c = self.canon(x, env)
+                except Exception: c = None
+                if c is not None and self.abs.get(c) is not None and self.abs[c] not in acc: acc.append(self.abs[c])
+            for y in x:
+                if isinstance(y, (tuple, list)): self.abs_in(y, env, acc)
+        return acc
 
     ABS_TY = {"Nat": "usize", "Int": "i64"}
 
@@ -762,6 +797,7 @@ class FnLower:
         if k == "match": return self.match_value(e, env, ops)
         if k in ("vec", "vecrep"): return self.vec_lit(e, env, ops)
         if k == "num":
+            if e[2] in ("i64", "isize"): return ("v", Val(f"(Int.ofNat {e[1]})", "i64"))
             if e[2] not in (None, "u64", "usize", "u8"): self.fail(f"integer literal with suffix {e[2]}")
             return ("v", Val(str(e[1]), e[2] or "int"))
         if k == "bool": return ("v", Val("True" if e[1] else "False", "bool"))
@@ -888,7 +924,11 @@ class FnLower:
         return self.ex_m(chain, env, ops)
 
     def vec_lit(self, e, env, ops):
-        if e[0] == "vecrep": self.fail("vec![x; n]")
+        if e[0] == "vecrep":
+            x, n = self.seq([lambda: self.ex(e[1], env, ops), lambda: self.ex(e[2], env, ops)], ops)
+            if x.ty not in WORD or n.ty not in WORD: self.fail(f"vec![x; n] with x : {x.ty}, n : {n.ty}")
+            return ("v", Val(f"(List.replicate {n.atom} {x.atom})", "list", x.deps | n.deps))
+        if not e[1]: return ("v", Val("(List.nil (α := Nat))", "list"))
         vals = self.seq([(lambda x=x: self.ex(x, env, ops)) for x in e[1]], ops)
         deps = set()
         for v in vals:
@@ -923,6 +963,18 @@ class FnLower:
             if m == "reserve" and len(args) == 1:
                 self.ex(args[0], env, ops)                 # capacity hint: only the (checked) evaluation of the argument is observable
                 return ("v", Val("()", "unit"))
+        if m == "contains" and len(args) == 1 and recv[0] == "range":
+            x = strip_paren(args[0])
+            if x[0] == "ref" and not x[1]: x = x[2]
+            lo, hi, xv = self.seq([lambda: self.ex(recv[1], env, ops), lambda: self.ex(recv[2], env, ops), lambda: self.ex(x, env, ops)], ops)
+            for v in (lo, hi, xv):
+                if v.ty not in WORD: self.fail(f"range contains on {v.ty}")
+            return ("v", Val(f"({lo.atom} ≤ {xv.atom} ∧ {xv.atom} {'≤' if recv[3] else '<'} {hi.atom})", "bool", lo.deps | hi.deps | xv.deps))
+        if m == "abs" and not args:
+            a = self.ex(recv, env, ops)
+            if a.ty != "i64": self.fail("abs on " + str(a.ty))
+            self.monadic_used = True                       # `i64::abs` negates with the crate's overflow checks: i64::MIN panics
+            return ("m", f"ckI64 (Int.ofNat (Int.natAbs {a.atom}))", "i64")
         if m == "unsigned_abs" and not args:
             a = self.ex(recv, env, ops)
             if a.ty != "i64": self.fail("unsigned_abs on " + str(a.ty))
@@ -937,6 +989,10 @@ class FnLower:
             if a.ty == "int" and b.ty == "int": self.fail(f"{m} on untyped literals")
             f = {"wrapping_add": "wAdd", "wrapping_sub": "wSub", "wrapping_mul": "wMul"}[m]
             return ("v", Val(f"({f} {a.atom} {b.atom})", a.ty if a.ty != "int" else b.ty, a.deps | b.deps))
+        if m == "reverse_bits" and not args:
+            a = self.ex(recv, env, ops)
+            if a.ty not in ("u32", "u64"): self.fail("reverse_bits on " + str(a.ty))
+            return ("v", Val(f"(revBits {32 if a.ty == 'u32' else 64} {a.atom})", a.ty, a.deps))
         if m == "leading_zeros" and not args:
             a = self.ex(recv, env, ops)
             if a.ty != "u64": self.fail("leading_zeros on " + a.ty)
@@ -952,8 +1008,9 @@ class FnLower:
             self.fail(f"cast bool -> {dst}")
         if v.ty in ("u8", "int") and dst in ("u8", "u64", "usize"): return ("v", Val(v.atom, dst, v.deps))
         if v.ty in ("u64", "usize") and dst in ("u64", "usize"): return ("v", Val(v.atom, dst, v.deps))
-        if v.ty == "u32" and dst in ("u64", "usize"): return ("v", Val(v.atom, dst, v.deps))
-        if v.ty in ("u64", "usize") and dst == "i64": return ("v", Val(f"(asI64 {v.atom})", "i64", v.deps))
+        if v.ty == "u32" and dst in ("u64", "usize", "u32"): return ("v", Val(v.atom, dst, v.deps))
+        if v.ty in ("u64", "usize", "int") and dst == "u32": return ("v", Val(f"({v.atom} % 4294967296)", "u32", v.deps))     # truncating cast
+        if v.ty in ("u64", "usize", "int") and dst == "i64": return ("v", Val(f"(asI64 {v.atom})", "i64", v.deps))
         if v.ty == "i64" and dst == "u64": return ("v", Val(f"(asU64 {v.atom})", "u64", v.deps))
         if v.ty in ("u8", "u64", "usize") and dst == "u128": return ("v", Val(v.atom, "u128", v.deps, widened=True))
         if v.ty == "u128" and dst == "u64":
@@ -964,12 +1021,25 @@ class FnLower:
 
     def binop(self, e, env, ops):
         op = e[1]
+        if op in ("<<", ">>") and strip_paren(e[3])[0] != "num" and self.const_int(e[3]) is not None:
+            e = ("bin", op, e[2], ("num", self.const_int(e[3]), None))          # constant-folded shift amount
         if op in ("&&", "||"):
             l = self.ex(e[2], env, ops)
             ops2 = []
             r = self.ex(e[3], env, ops2)
-            if ops2: self.fail(f"right operand of `{op}` needs statements (checked arithmetic / calls) - short-circuit not modelled")
             if l.ty != "bool" or r.ty != "bool": self.fail(f"`{op}` on non-bool")
+            if ops2:
+                # short circuit with an effectful right operand: `l && r` = `if l { r } else { false }` (`||`: `if l { true } else { r }`)
+                for o in ops2:
+                    if pat_names(o[1]) & set(n for v in env.values() if v.kind != "handle" for n in (v.names() if v.kind != "cr" else [])):
+                        self.fail(f"right operand of `{op}` assigns a variable")
+                self.monadic_used = True
+                t = self.tmp()
+                rc = Code(ops2, ("ret", f"decide ({unparen(r.atom)})"))
+                code = Code([], ("if", unparen(l.atom), rc, Code([], ("ret", "false")))) if op == "&&" else \
+                       Code([], ("if", unparen(l.atom), Code([], ("ret", "true")), rc))
+                ops.append(("letcode", f"{t} : Bool", code))
+                return ("v", Val(f"({t} = true)", "bool", [t]))
             return ("v", Val(f"({l.atom} {'∧' if op == '&&' else '∨'} {r.atom})", "bool", l.deps | r.deps))
         l, r = self.seq([lambda: self.ex(e[2], env, ops), lambda: self.ex(e[3], env, ops)], ops)
         deps = l.deps | r.deps
@@ -997,7 +1067,7 @@ class FnLower:
             if op in ("/", "%"): return ("m", f"{'ckDiv' if op == '/' else 'ckMod'} {l.atom} {r.atom}", "u128")
             self.fail(f"u128 arithmetic `{op}`")
         if l.ty == "i64" or r.ty == "i64": return self.binop_i64(op, l, r, deps)
-        if l.ty not in WORD or r.ty not in WORD: self.fail(f"`{op}` on {l.ty}, {r.ty}")
+        if (l.ty not in WORD or r.ty not in WORD) and not (op in ("<<", ">>") and l.ty == "u32"): self.fail(f"`{op}` on {l.ty}, {r.ty}")
         ty = l.ty if l.ty != "int" else r.ty
         if op in ("+", "-", "*"):
             if "u8" in (l.ty, r.ty) or ty == "int": self.fail(f"`{op}` on {l.ty}, {r.ty} (only 64-bit checked arithmetic is modelled)")
@@ -1011,19 +1081,42 @@ class FnLower:
         if op in ("&", "|", "^"):
             if "u8" in (l.ty, r.ty) and not ("int" in (l.ty, r.ty) or l.ty == r.ty): self.fail(f"`{op}` on {l.ty}, {r.ty}")
             return ("v", Val(f"({l.atom} { {'&': '&&&', '|': '|||', '^': '^^^'}[op]} {r.atom})", ty, deps))
+        if op in ("<<", ">>") and (l.ty == "u32" or self.const_int(e[3]) is None):
+            # shift by a variable amount (or of a u32): the amount is checked against the width (`attempt to shift with overflow`)
+            if l.ty not in ("u64", "usize", "u32", "int") or r.ty not in ("u64", "usize", "u32", "int"): self.fail(f"shift `{op}` on {l.ty} by {r.ty}")
+            if l.ty == "int" and strip_paren(e[2])[0] == "num": self.fail(f"shift `{op}` of an untyped literal by a variable amount (type unknown)")
+            w = 32 if l.ty == "u32" else 64          # a variable initialised with an untyped literal is a 64-bit word (as for + - *)
+            self.monadic_used = True
+            return ("m", f"{'ckShr' if op == '>>' else 'ckShl'} {w} {l.atom} {r.atom}", "usize" if l.ty == "int" else l.ty)
         if op in ("<<", ">>"):
             rr = strip_paren(e[3])
-            if rr[0] != "num" or rr[1] >= 64: self.fail(f"shift `{op}` by a non-constant (or >= 64) amount")
+            if rr[0] != "num": rr = ("num", self.const_int(rr), None)         # a compile-time constant amount
+            if rr[1] >= 64: self.fail(f"shift `{op}` by a non-constant (or >= 64) amount")
             if l.ty == "u8": self.fail("shift of u8")
             if op == ">>": return ("v", Val(f"({l.atom} >>> {rr[1]})", ty, deps))
             return ("v", Val(f"(({l.atom} <<< {rr[1]}) % B64)", "u64" if ty == "int" else ty, deps))
         self.fail(f"operator `{op}`")
+
+    def const_int(self, e):
+        """value of a compile-time constant expression: literal, table constant, `c - k` / `c + k` of such (rustc folds it too)"""
+        e = strip_paren(e)
+        if e[0] == "num": return e[1]
+        if e[0] == "path" and e[1][-1] in self.consts and not (len(e[1]) == 1 and False): return self.consts[e[1][-1]][0]
+        if e[0] == "bin" and e[1] in ("+", "-"):
+            a, b = self.const_int(e[2]), self.const_int(e[3])
+            if a is None or b is None: return None
+            v = a + b if e[1] == "+" else a - b
+            return v if 0 <= v < 2**64 else None
+        return None
 
     def binop_i64(self, op, l, r, deps):
         if not (l.ty in ("i64", "int") and r.ty in ("i64", "int")): self.fail(f"`{op}` on {l.ty}, {r.ty}")
         if op in ("+", "-", "*"):
             self.monadic_used = True
             return ("m", f"ckI64 ({unparen(l.atom)} {op} {unparen(r.atom)})", "i64")
+        if op in ("/", "%"):       # truncating; panics on a zero divisor and on i64::MIN / -1 (prelude)
+            self.monadic_used = True
+            return ("m", f"{'ckDivI64' if op == '/' else 'ckModI64'} {l.atom} {r.atom}", "i64")
         self.fail(f"i64 operator `{op}`")
 
     # value of an `if` expression whose branches neither escape nor assign outer variables
@@ -1043,7 +1136,7 @@ class FnLower:
         def kv(env2, val, ops):
             if val is None: self.fail("branch of a value-`if` has no value")
             tys.append(val.ty); return ("ret", unparen(val.atom))
-        kk = K(kv, set(), identity=True)
+        kk = K(kv, set(), identity=True); kk.on_type = tys.append
         ca = self.block_code(e[2], dict_copy(env), kk)
         cb = self.block_code(e[3], dict_copy(env), kk)
         ty = next((t for t in tys if t != "int"), "int")
@@ -1101,12 +1194,31 @@ class FnLower:
             if not (ia() and ib()): self.fail("swap of an uninitialised variable")
             ops.append(("let", f"({la}, {lb})", f"({lb}, {la})"))
             return ("v", Val("()", "unit"))
+        if len(path) == 1 and path[0] in env and env[path[0]].kind == "closure": return self.closure_call(env[path[0]], args, env, ops)
         sig = None
         if len(path) >= 2 and (path[-2] == "Self" or path[-2] in self.tr.structs):
             sig = self.tr.msigs.get((self.fn["selfty"] if path[-2] == "Self" else path[-2], fname))
         if sig is None and not (len(path) >= 2 and path[-2][0].isupper()): sig = self.tr.sigs.get(fname)
         if sig is None: self.fail(f"call to `{'::'.join(path)}` which is not a translated function")
         return self.call_sig(sig, fname, args, env, ops)
+
+    def closure_call(self, cv, args, env, ops):
+        """call of a local closure = call of its auxiliary definition (captures are immutable: their values at the definition)"""
+        cname, capnames, ptys, rty, mon = cv.closure
+        if len(args) != len(ptys): self.fail(f"call of closure `{cv.rust}`: arity")
+        vals = self.seq([(lambda a=a: self.ex(a, env, ops)) for a in args], ops)
+        deps = set(capnames)
+        for ty, v in zip(ptys, vals):
+            if ty == "i64":
+                if v.ty != "i64": self.fail(f"call of closure `{cv.rust}`: argument of type {v.ty} for an i64 parameter")
+            elif v.ty not in WORD: self.fail(f"call of closure `{cv.rust}`: argument of type {v.ty} for a {ty} parameter")
+            deps |= v.deps
+        callstr = " ".join([cname] + capnames + [v.atom for v in vals])
+        if mon:
+            self.monadic_used = True
+            return ("m", callstr, rty)
+        if rty == "bool": return ("v", Val(f"({callstr} = true)", "bool", deps))
+        return ("v", Val(f"({callstr})", rty, deps))
 
     def qual(self, sig):
         """Lean name of a translated function as seen from the file being generated"""
@@ -1144,7 +1256,9 @@ class FnLower:
             elif kind == "w":
                 def th(a=a, p=p):
                     v = self.ex(a, env, ops)
-                    if v.ty not in WORD: self.fail(f"call to {fname}: argument of type {v.ty} for a {p[1]} parameter")
+                    if p[1] == "u32":
+                        if v.ty not in ("u32", "int"): self.fail(f"call to {fname}: argument of type {v.ty} for a u32 parameter")
+                    elif v.ty not in WORD: self.fail(f"call to {fname}: argument of type {v.ty} for a {p[1]} parameter")
                     return v
                 thunks.append(th)
             elif kind in ("mod", "mulop"):
@@ -1229,7 +1343,7 @@ class FnLower2(FnLower):
     def block_code(self, blk, env, k, nested=True):
         outer = set(env.keys())
         def kf(env2, v, ops2): return k.fn({n: w for n, w in env2.items() if n in outer}, v, ops2)
-        k2 = K(kf, k.live, k.identity, k.toplevel)
+        k2 = K(kf, k.live, k.identity, k.toplevel); k2.on_type = getattr(k, "on_type", None)
         ops = []
         term = self.stmts(blk[0], 0, blk[1], env, ops, k2, nested)
         return Code(ops, term)
@@ -1249,9 +1363,15 @@ class FnLower2(FnLower):
             return self.stmts([("expr", e0, None)], 0, None, env, ops, k, nested)
         if e0[0] == "blockexpr":
             return self.stmts(e0[1][0], 0, e0[1][1], env, ops, k, True)
+        if e0[0] == "panic":
+            self.monadic_used = True
+            return ("tailm", f".error .{self.panic_err}")
         if k.identity:
             r = self.ex_m(e0, env, ops)
-            if r[0] == "m": self.monadic_used = True; return ("tailm", r[1])
+            if r[0] == "m":
+                self.monadic_used = True
+                if getattr(k, "on_type", None): k.on_type(r[2])        # value-blocks (closures, value-`if`): the type of a monadic tail
+                return ("tailm", r[1])
             if r[1].ty == "unit": return k.fn(env, None, ops)
             return k.fn(env, r[1], ops)
         v = self.ex(e0, env, ops)
@@ -1311,6 +1431,45 @@ class FnLower2(FnLower):
             if dty in (None, "u64", "usize"): env[pat] = Var("w", self.newvar(pat), dty or "u64", init=False, rust=pat); return
             self.fail(f"uninitialised `let` of type {dty}", ln)
         i0 = strip_paren(init)
+        if i0[0] == "closure":
+            # a local closure: inlined at every call.  Its captures must be immutable (never assigned anywhere in the function), so that
+            # by-reference capture = the value at the definition = the value at the call
+            if mut or pat in self.ever_assigned: self.fail(f"closure `{pat}` is mutable / re-assigned", ln)
+            pnames = [q[0] for q in i0[1]]
+            caps = {x for x in uses([i0[2][0], i0[2][1]]) if x in env and x not in pnames}
+            a_in, d_in = assigned([i0[2][0], i0[2][1]])
+            bad = {x for x in caps if x in self.strictly_assigned or (x in self.ever_assigned and env[x].kind not in ("w", "b", "mod", "mulop", "cr", "val"))} | {x for x in a_in if isinstance(x, str) and x not in d_in and x not in pnames}
+            if bad: self.fail(f"closure `{pat}` captures / assigns mutable variables {sorted(bad)}", ln)
+            if has_escape([i0[2][0], i0[2][1]]): self.fail(f"`return`/`break` inside closure `{pat}`", ln)
+            self.nclos = getattr(self, "nclos", 0) + 1
+            cname = f"{self.name}_closure{self.nclos}"
+            env2 = dict_copy(env); binders = []; capnames = []
+            for x in [y for y in env if y in caps]:
+                cvv = env[x]
+                if cvv.kind not in ("w", "b", "mod", "mulop", "val") or not self.all_init(env, [x]): self.fail(f"closure `{pat}` captures `{x}` ({cvv.kind})", ln)
+                tyl = "Int" if cvv.ty == "i64" else self.LEANTY.get(cvv.kind, "Nat")
+                binders.append(f"({cvv.lean} : {tyl})"); capnames.append(cvv.lean)
+            ptys = []
+            for (pn, pt) in i0[1]:
+                ty = self.wty(self.rty(pt), "closure parameter type")
+                if ty not in ("u64", "usize", "u8", "i64"): self.fail(f"closure parameter of type {ty}", ln)
+                n = self.newvar(pn); binders.append(f"({n} : {'Int' if ty == 'i64' else 'Nat'})"); ptys.append(ty)
+                env2[pn] = Var("w", n, ty, rust=pn)
+            tys = []
+            def kv(env3, val, ops3):
+                if val is None: self.fail(f"closure `{pat}` has no value")
+                tys.append(val.ty); return ("ret", unparen(val.atom))
+            kk = K(kv, set(), identity=True); kk.on_type = tys.append
+            save_mu = self.monadic_used
+            code = self.block_code(i0[2], env2, kk)
+            rty = next((t for t in tys if t != "int"), "int")
+            if not (rty in WORD or rty in ("i64", "bool")): self.fail(f"closure `{pat}` returns a {rty}", ln)
+            mon = not code.pure(True)
+            self.monadic_used = save_mu
+            self.aux.append({"kind": "closure", "name": cname, "binders": binders, "code": code, "mon": mon, "line": ln, "rust": pat,
+                             "rty": "Int" if rty == "i64" else "Bool" if rty == "bool" else "Nat"})
+            v = Var("closure", None, rust=pat); v.closure = (cname, capnames, ptys, rty, mon); env[pat] = v
+            return
         ab = self.abstracted(i0, env)
         if ab is not None and ab[1] is None:
             env[pat] = Var("handle", ab[0], rust=pat); return          # a local standing for an opaque accessor chain
@@ -1341,10 +1500,10 @@ class FnLower2(FnLower):
             ops1[-1] = ("let", f"{n} : Bool", f"decide ({o[2]})")
             env[pat] = Var("b", n, "bool", rust=pat)
         elif t in WORD: env[pat] = Var("w", n, (dty if dty in WORD else None) or t, rust=pat)
-        elif t in ("i64", "u128"): env[pat] = Var("w", n, t, rust=pat)
+        elif t in ("i64", "u128", "u32"): env[pat] = Var("w", n, t, rust=pat)
         elif isinstance(t, tuple) and t[0] == "struct": env[pat] = Var("struct", n, t[1], rust=pat)
         elif isinstance(t, tuple) and t[0] == "enum": env[pat] = Var("val", n, t, rust=pat)
-        elif t == "list": env[pat] = Var("list", n, rust=pat); env[pat].vec = True
+        elif t == "list": env[pat] = Var("list", n, rust=pat); env[pat].vec = True; env[pat].mut = bool(mut)
         else: self.fail(f"`let` of a value of type {t}", ln)
         ops.extend(ops1)
 
@@ -1495,6 +1654,8 @@ class FnLower2(FnLower):
                 if v.kind == "struct": tyl = self.tr.structs[v.ty]["lean"]
                 if v.kind == "val" and isinstance(v.ty, tuple) and v.ty[0] == "enum": tyl = self.tr.enums[v.ty[1]]["lean"]
                 if x not in cap_names: cap_names.append(x); cap_binders.append(f"({x} : {tyl})")
+        for (bn, bt) in (self.abs_in([body[0], body[1]], env) if self.abs else []):
+            if bn not in cap_names: cap_names.append(bn); cap_binders.append(f"({bn} : {bt})")
         car_names = []; car_types = []
         for n in carried:
             v = env[n]
@@ -1549,6 +1710,8 @@ class FnLower2(FnLower):
                 if v.kind == "struct": tyl = self.tr.structs[v.ty]["lean"]
                 if v.kind == "val" and isinstance(v.ty, tuple) and v.ty[0] == "enum": tyl = self.tr.enums[v.ty[1]]["lean"]
                 if x not in cap_names: cap_names.append(x); cap_binders.append(f"({x} : {tyl})")
+        for (bn, bt) in (self.abs_in([s[1], body[0], body[1]] if s[0] == "while" else [body[0], body[1]], env) if self.abs else []):
+            if bn not in cap_names: cap_names.append(bn); cap_binders.append(f"({bn} : {bt})")
         car_names = []; car_types = []
         for n in carried:
             v = env[n]
@@ -1608,6 +1771,98 @@ def const_index_width(body, name):
     return None if other[0] or width[0] == 0 else width[0]
 
 
+def parse_snippet(text, kind, fname):
+    """parse a table-supplied Rust snippet: kind = 'expr' | 'stmts' | 'params' | 'type'"""
+    if kind == "expr":
+        p = Parser(tokenize(text), fname); e = p.expr()
+        if p.kind() != "eof": p.fail("trailing tokens in a table expression")
+        return e
+    if kind == "stmts":
+        p = Parser(tokenize("{" + text + "}"), fname); b = p.block()
+        if b[1] is not None: return b[0] + [("expr", b[1], None)]
+        return b[0]
+    if kind == "fn":
+        p = Parser(tokenize(text), fname); return p.fn_item()
+    raise AssertionError(kind)
+
+
+class Skeleton:
+    """table-driven rewriting of a method that works on opaque objects into a plain function over pseudo-variables:
+       "skeleton": {"sig": "fn f(cur0: usize, tgt: usize) -> Vec<usize>", "prologue": "...", "epilogue": "...",
+                    "handles": [canonical texts], "exprs": {canonical text: rust expr}, "effects": {canonical stmt text: rust stmts}}
+       Every original parameter (and `self`) is an opaque handle; a `let x = <handle>` is substituted away; an expression / statement
+       whose canonical text is listed is replaced; whatever then still mentions a handle fails in the lowering (unknown identifier)."""
+    def __init__(self, lower, fn, sk):
+        self.lo, self.fn, self.sk = lower, fn, sk
+        self.used = set()
+        self.env = {}
+        for (pn, pt, mut) in fn["params"]: self.env[pn] = Var("handle", pn, rust=pn)
+
+    def canon(self, e):
+        if isinstance(e, tuple) and e and e[0] == "assign" and e[2] is None:
+            l, r = self.lo.canon(e[1], self.env), self.lo.canon(e[3], self.env)
+            return None if l is None or r is None else f"{l} = {r}"
+        if isinstance(e, tuple) and e and e[0] in ("field", "mcall", "bin", "cast", "un", "call", "path", "paren", "deref", "ref", "index"):
+            return self.lo.canon(e, self.env)
+        return None
+
+    def expr(self, e):
+        if not isinstance(e, tuple) or not e: return e
+        if e[0] in ("if",):
+            return ("if", self.expr(e[1]), self.block(e[2]), None if e[3] is None else self.block(e[3]))
+        if e[0] == "blockexpr": return ("blockexpr", self.block(e[1]))
+        if e[0] == "match": return ("match", self.expr(e[1]), [(pats, self.expr(b)) for pats, b in e[2]])
+        c = self.canon(e)
+        if c is not None and c in self.sk.get("exprs", {}):
+            self.used.add(c); return ("paren", parse_snippet(self.sk["exprs"][c], "expr", self.fn["name"]))
+        if e[0] in ("num", "bool", "float", "path", "panic"): return e
+        return tuple(self.expr(x) if isinstance(x, tuple) else [self.expr(y) if isinstance(y, tuple) else y for y in x] if isinstance(x, list) else x for x in e)
+
+    def block(self, blk):
+        stmts, tail = blk
+        saved = dict(self.env)
+        out = []
+        items = list(stmts) + ([("expr", tail, None, "tail")] if tail is not None else [])
+        newtail = None
+        for s in items:
+            istail = len(s) == 4 and s[3] == "tail"
+            if s[0] == "let" and isinstance(s[1], str) and s[4] is not None:
+                c = self.canon(strip_paren(s[4]))
+                if c is not None and c in self.sk.get("handles", []):
+                    self.used.add(c); self.env[s[1]] = Var("handle", c, rust=s[1]); continue
+                out.append(("let", s[1], s[2], s[3], self.expr(s[4]), s[5])); continue
+            if s[0] in ("expr", "assign"):
+                c = self.canon(strip_paren(s[1])) if s[0] == "expr" else self.canon(s)
+                if c is not None and c in self.sk.get("effects", {}):
+                    self.used.add(c); out += parse_snippet(self.sk["effects"][c], "stmts", self.fn["name"]); continue
+            if s[0] == "expr":
+                e2 = self.expr(s[1])
+                if istail: newtail = e2
+                else: out.append(("expr", e2, s[2] if len(s) > 2 else None))
+            elif s[0] == "assign": out.append(("assign", self.expr(s[1]), s[2], self.expr(s[3]), s[4]))
+            elif s[0] == "return": out.append(("return", None if s[1] is None else self.expr(s[1]), s[2]))
+            elif s[0] == "loop": out.append(("loop", self.block(s[1]), s[2]))
+            elif s[0] == "while": out.append(("while", self.expr(s[1]), self.block(s[2]), s[3]))
+            elif s[0] == "for": out.append(("for", s[1], self.expr(s[2]), self.block(s[3]), s[4]))
+            else: out.append(s)
+        self.env = saved
+        return (out, newtail)
+
+    def run(self):
+        sig = parse_snippet(self.sk["sig"] + " {}", "fn", self.fn["name"])
+        body = self.block(self.fn["body"])
+        pro = parse_snippet(self.sk.get("prologue", ""), "stmts", self.fn["name"])
+        epi = parse_snippet(self.sk.get("epilogue", ""), "stmts", self.fn["name"])
+        stmts = pro + body[0] + ([("expr", body[1], None)] if body[1] is not None else [])
+        tail = None
+        if epi and epi[-1][0] == "expr" and epi[-1][2] is None: tail = epi[-1][1]; epi = epi[:-1]
+        unused = [c for c in list(self.sk.get("handles", [])) + list(self.sk.get("exprs", {})) + list(self.sk.get("effects", {})) if c not in self.used]
+        if unused: self.lo.fail(f"skeleton table entries never matched: {unused}")
+        new = dict(self.fn); new["params"] = sig["params"]; new["ret"] = sig["ret"]; new["body"] = (stmts + epi, tail)
+        new["selfty"] = None
+        return new
+
+
 class FnTranslate(FnLower2):
     def infer_i64(self):
         """names of locals that are i64: declared / cast so, or combined with / assigned from such (fixpoint; types only - every
@@ -1649,6 +1904,16 @@ class FnTranslate(FnLower2):
     def signature(self):
         fn = self.fn
         self.i64vars = self.infer_i64()
+        CLOSURE_CAPS.clear()
+        def find_closures(x):
+            if isinstance(x, list):
+                for y in x: find_closures(y)
+            elif isinstance(x, tuple) and x:
+                if x[0] == "let" and isinstance(x[1], str) and x[4] is not None and strip_paren(x[4])[0] == "closure":
+                    c = strip_paren(x[4]); CLOSURE_CAPS[x[1]] = uses([c[2][0], c[2][1]]) - {q[0] for q in c[1]}
+                for y in x:
+                    if isinstance(y, (tuple, list)): find_closures(y)
+        find_closures([fn["body"][0], fn["body"][1]])
         params = []; self.binders = []; env = {}
         body = fn["body"]
         np = 0
@@ -1656,6 +1921,7 @@ class FnTranslate(FnLower2):
         # loop states, so only these must not be shadowed inside nested blocks
         a_all, _d = assigned([fn["body"][0], fn["body"][1]])
         self.ever_assigned = {x if isinstance(x, str) else x[1] for x in a_all}
+        self.strictly_assigned = {x for x in a_all if isinstance(x, str)}       # without "passed bare to a call" (only a re-borrow of a `&mut` can write)
         self.abs = {}; self.abs_used = set()
         for ent in self.opts.get("abstract", []):
             if ent[0] in self.abs: self.fail(f"abstraction `{ent[0]}` listed twice")
@@ -1678,7 +1944,7 @@ class FnTranslate(FnLower2):
                 continue
             if pt[0] == "ref" and not pt[1] and pt[2][0] == "name" and pt[2][1] in ("u64", "usize"): pt = pt[2]; isref = True     # `&u64`: a word
             else: isref = False
-            if pt[0] == "name" and pt[1] in ("u64", "usize", "u8"):
+            if pt[0] == "name" and pt[1] in ("u64", "usize", "u8", "u32"):
                 params.append(("w", pt[1])); env[pn] = Var("w", lean, pt[1], rust=pn); env[pn].isref = isref; self.binders.append(f"({lean} : Nat)")
             elif pt[0] == "name" and pt[1] in ("i64", "isize"):
                 params.append(("wi", "i64")); env[pn] = Var("w", lean, "i64", rust=pn); self.binders.append(f"({lean} : Int)")
@@ -1742,7 +2008,7 @@ class FnTranslate(FnLower2):
             if ent is not None: self.binders.append(f"({ent[0]} : {ent[1]})")
         rt = self.rty(fn["ret"])
         if rt == ("tuple", []): ret = "unit"
-        elif rt[0] == "name" and rt[1] in ("u64", "usize", "u8", "bool"): ret = rt[1]
+        elif rt[0] == "name" and rt[1] in ("u64", "usize", "u8", "bool", "u32"): ret = rt[1]
         elif rt[0] == "name" and rt[1] in ("i64", "isize"): ret = "i64"
         elif rt[0] == "name" and rt[1] in self.tr.structs: ret = ("struct", rt[1])
         elif rt == ("vec", ("name", "usize")) or rt == ("vec", ("name", "u64")): ret = "list"
@@ -1847,6 +2113,9 @@ class FnTranslate(FnLower2):
         return inout
 
     def translate(self):
+        if "skeleton" in self.opts:
+            self.abs = {}
+            self.fn = Skeleton(self, self.fn, self.opts["skeleton"]).run()
         env = self.signature()
         force = self.opts.get("monadic", False)
         # registered before lowering so that recursive calls resolve (monadic flag fixed by the table for recursive functions)
@@ -1873,7 +2142,8 @@ class FnTranslate(FnLower2):
                     if val.ty != "bool": self.fail("bool function returns " + val.ty)
                     parts.append(f"decide ({unparen(val.atom)})")
                 else:
-                    if val.ty not in WORD: self.fail(f"function returns {val.ty}")
+                    if val.ty not in WORD and not (self.ret == "u32" and val.ty == "u32"): self.fail(f"function returns {val.ty}")
+                    if (self.ret == "u32") != (val.ty == "u32") and val.ty != "int": self.fail(f"function of type {self.ret} returns {val.ty}")
                     parts.append(val.atom)
             elif val is not None and val.ty != "unit": self.fail("value returned from a unit function")
             return ("ret", unparen(parts[0]) if len(parts) == 1 else "(" + ", ".join(unparen(p) for p in parts) + ")")
@@ -1994,6 +2264,13 @@ class FnTranslate(FnLower2):
         fn = self.fn; out = []
         rty = f"R ({self.ret_lean})" if mon and ("×" in self.ret_lean or " " in self.ret_lean) else (f"R {self.ret_lean}" if mon else self.ret_lean)
         for a in self.aux:
+            if a.get("kind") == "closure":
+                out.append(f"/-- closure `{a['rust']}` at line {a['line']} of `{fn['name']}` ({fn['file']}); captured variables first -/")
+                crty = f"R {a['rty']}" if a["mon"] else a["rty"]
+                chead = f"def {a['name']} {' '.join(a['binders'])} : {crty} :="
+                if a["mon"]: out.append(chead + " do"); out += self.seq_m(a["code"], 2, True)
+                else: out.append(chead); out += self.seq_p(a["code"], 2)
+                out.append(""); continue
             out.append(f"/-- loop at line {a['line']} of `{fn['name']}` ({fn['file']}); fuel {a['fuel']} at the call site -/")
             out.append(f"def {a['name']} {' '.join(a['binders'])} : Nat → {' → '.join(a['car_types'])} → {rty}".replace("  ", " "))
             pats = ", ".join(a["car_names"])
@@ -2025,6 +2302,17 @@ def ckMod (a b : Nat) : R Nat := if b = 0 then .error .other else .ok (a % b)
 def clz64 (v : Nat) : Nat := 64 - (if v = 0 then 0 else Nat.log2 v + 1)
 /-- `v as u64` for an `i64` value (two's complement reinterpretation) -/
 def asU64 (v : Int) : Nat := (v % 18446744073709551616).toNat
+/-- `i64` `/` and `%` (truncating): a zero divisor and `i64::MIN / -1`, `i64::MIN % -1` panic -/
+def ckDivI64 (a b : Int) : R Int := if b = 0 then .error .other else ckI64 (Int.tdiv a b)
+def ckModI64 (a b : Int) : R Int :=
+  if b = 0 then .error .other else if a = -9223372036854775808 ∧ b = -1 then .error .overflow else .ok (Int.tmod a b)
+/-- `x >> v`, `x << v` by a variable amount on a `w`-bit word: an amount `>= w` panics (overflow checks) -/
+def ckShr (w x v : Nat) : R Nat := if v < w then .ok (x >>> v) else .error .overflow
+def ckShl (w x v : Nat) : R Nat := if v < w then .ok ((x <<< v) % 2^w) else .error .overflow
+/-- `u32::reverse_bits` / `u64::reverse_bits` (reverse the low `k` bits of `x < 2^k`) -/
+def revBits : Nat → Nat → Nat
+  | 0, _ => 0
+  | k+1, x => (x % 2) * 2^k + revBits k (x / 2)
 /-- u128 arithmetic (`u128` = Nat, invariant `< 2^128`): checked `*` and `+`; `-` is `ckSub`, `/ %` are `ckDiv`/`ckMod` -/
 def B128 : Nat := 340282366920938463463374607431768211456
 def ckMul128 (a b : Nat) : R Nat := if a * b < B128 then .ok (a * b) else .error .overflow
@@ -2078,6 +2366,11 @@ TABLE = [
     {"file": US, "struct": "MultiplyU64ModOperand", "model": "MulOperand", "fields": ["operand", "quotient"]},
     {"file": US, "fn": "set_quotient", "impl": "MultiplyU64ModOperand", "lean": "mulop_set_quotient", "model": "MulOperand.new"},
     {"file": US, "fn": "new", "impl": "MultiplyU64ModOperand", "lean": "mulop_new", "model": "MulOperand.new"},
+    # phase 3
+    {"file": US, "fn": "try_invert_u64_mod", "model": "tryInvert v m.value"},
+    {"file": UB, "fn": "negate_uint", "model": "negateUint a result.len()"},
+    # (`left_shift_u192` / `right_shift_u192` translate (variable shifts = ckShl/ckShr) but their equalities are not proven yet: not listed)
+    {"file": UB, "fn": "reverse_bits_u32", "model": "brev bit_count operand (operand < 2^bit_count, bit_count <= 32)", "monadic": True},
 ]
 
 # Gen/NttFns.lean: the lazy modular arithmetic of the NTT butterflies (src/util/ntt.rs, `impl Arithmetic for ModArithLazy`)
@@ -2109,6 +2402,11 @@ class Translator:
         if (rel, name) not in self._consts:
             src = strip_comments(open(os.path.join(self.repo, rel)).read())
             ms = re.findall(r"\bconst\s+%s\s*:\s*(\w+)\s*=\s*([0-9][0-9a-fA-Fx_]*)\s*;" % re.escape(name), src)
+            al = re.findall(r"\bconst\s+%s\s*:\s*(\w+)\s*=\s*([A-Z][A-Z0-9_]*)\s*;" % re.escape(name), src)
+            if not ms and len(al) == 1:          # `const A: T = B;` (alias of another literal constant of the same file)
+                v, ty = self.const(rel, al[0][1])
+                if ty != al[0][0]: raise Unsupported(f"constant {name}: alias of a constant of another type")
+                self._consts[(rel, name)] = (v, ty); return (v, ty)
             if len(ms) != 1: raise Unsupported(f"constant {name}: {len(ms)} literal definitions in {rel}")
             if ms[0][0] not in ("usize", "u64"): raise Unsupported(f"constant {name} of type {ms[0][0]}")
             self._consts[(rel, name)] = (parse_int(ms[0][1])[0], ms[0][0])
@@ -2151,6 +2449,67 @@ class Translator:
         return self.run_file({"ns": "GenW", "imports": ["Heathcliff.Model.Word"], "table": self.table, "prelude": PRELUDE})
 
 
+def ladder_file(tr, spec):
+    """Gen/LadderFns.lean: the CONDITIONS of the error returns of a decision ladder (`HeContext::validate`).  Every block
+    `if COND { c.qualifiers.parameter_error = ErrorType::X; return c; }` is located in source order; for the error codes listed in
+    spec["conds"] the condition is translated (as the body of a pseudo-function `fn <fn>_cond_X() -> bool { COND }`, with the accessor
+    chains of the table as inputs); the others are recorded as untied (text only)."""
+    rel, fname, impl = spec["file"], spec["fn"], spec["impl"]
+    src = strip_comments(open(os.path.join(tr.repo, rel)).read())
+    lo, hi = 0, None
+    if impl is not None: lo, hi, _, _ = find_impl(src, impl, rel)
+    off, line = find_fn(src, fname, rel, lo, hi)
+    j = src.index("{", off); end = brace_block(src, j, f"fn {fname}")
+    body = src[j:end]
+    rungs = []
+    for m in re.finditer(r"c\s*\.\s*qualifiers\s*\.\s*parameter_error\s*=\s*ErrorType\s*::\s*(\w+)\s*;\s*return\s+c\s*;\s*\}", body):
+        # the `{` that opens the block this assignment sits in
+        d = 0; q = m.start() - 1
+        while q >= 0:
+            if body[q] == "}": d += 1
+            elif body[q] == "{":
+                if d == 0: break
+                d -= 1
+            q -= 1
+        if q < 0: raise Unsupported(f"ladder {fname}: no enclosing block for {m.group(1)}")
+        # the header: back to the previous `;`, `{` or `}`
+        h = q - 1
+        while h >= 0 and body[h] not in ";{}": h -= 1
+        header = " ".join(body[h + 1:q].split())
+        ln = line + body.count("\n", 0, h + 1)
+        rungs.append((m.group(1), header, ln))
+    if not rungs: raise Unsupported(f"ladder {fname}: no error returns found")
+    tr.cur_ns = spec["ns"]
+    out = [f"/- GENERATED by tools/rs2lean.py (via tools/extract.py) from {rel} (`fn {fname}`) -- do not edit.",
+           "   The conditions of the error returns `if COND { c.qualifiers.parameter_error = ErrorType::X; return c; }` in source order;",
+           "   one Boolean function per condition listed in the translator's table (accessor chains are inputs), see TRANSLATOR.md. -/"]
+    out += [f"import {m}" for m in spec["imports"]] + ["", "set_option linter.unusedVariables false", "", f"namespace HC.{spec['ns']}", "open HC", "open HC.GenW", ""]
+    seen = set(); order = []
+    for name, header, ln in rungs:
+        tied = name in spec["conds"] and name not in seen
+        order.append((name, header, ln, tied))
+        if name in seen or name not in spec["conds"]: continue
+        seen.add(name)
+        if not header.startswith("if ") or header.startswith("if let "): raise Unsupported(f"ladder {fname}: the guard of {name} is `{header}`, not a plain `if`")
+        cond = header[3:]
+        text = f"fn {fname}_cond_{name}() -> bool {{ {cond} }}"
+        toks = tokenize(text, ln)
+        pf = Parser(toks, f"{fname}_cond_{name}").fn_item()
+        norm = " ".join(t[1] for t in toks)
+        pf.update({"file": rel, "line0": ln, "line1": ln, "hash": hashlib.sha256(norm.encode()).hexdigest()[:16], "norm": norm,
+                   "selfty": None, "aliases": {}, "impl": None})
+        try: out.append(FnTranslate(tr, pf, dict(spec["conds"][name], lean=f"cond_{name}")).translate())
+        except Unsupported as ex: raise Unsupported(f"rs2lean: {rel}: ladder {fname}, condition of {name}: {ex}")
+    missing = [n for n in spec["conds"] if n not in seen]
+    if missing: raise Unsupported(f"ladder {fname}: no error return for {missing}")
+    out.append("/-- the error returns in source order: (error code, its condition is translated above) -/")
+    out.append("def rungs : List (String × Bool) := [" + ", ".join(f'("{n}", {"true" if t else "false"})' for n, _, _, t in order) + "]")
+    out.append("/-")
+    out += [f"  line {ln}: {n}: {h}" for n, h, ln, _ in order]
+    out += ["-/", "", f"end HC.{spec['ns']}", ""]
+    return "\n".join(out)
+
+
 FILES = []      # filled below: (file name, spec) in dependency order
 
 
@@ -2158,7 +2517,7 @@ def gen_all(repo):
     """all generated files of the translator: {file name: text}"""
     try:
         tr = Translator(repo); res = {}
-        for name, spec in FILES: res[name] = tr.run_file(spec)
+        for name, spec in FILES: res[name] = ladder_file(tr, spec) if spec.get("ladder") else tr.run_file(spec)
         return res
     except Unsupported as ex: raise SystemExit("extract.py: " + str(ex))
 
@@ -2216,6 +2575,31 @@ TABLE_GALOIS = [
     {"file": UG, "fn": "get_elts_all", "impl": "GaloisTool", "model": "eltsAll", "consts": {"GALOIS_GENERATOR": UG},
      "abstract": [("self.coeff_count", "coeffCount", "Nat"), ("self.coeff_count_power", "coeffCountPower", "Nat")]},
     {"file": UG, "fn": "get_index_from_elt", "impl": "GaloisTool", "model": "(g - 1) / 2 for odd g"},
+    # phase 3
+    {"file": UG, "fn": "apply", "impl": "GaloisTool", "lean": "galois_apply", "model": "galoisApply",
+     "abstract": [("self.coeff_count", "coeffCount", "Nat"), ("self.coeff_count_power", "coeffCountPower", "Nat")]},
+    {"file": UG, "fn": "generate_table_ntt", "impl": "GaloisTool", "model": "galoisTableNtt",
+     "abstract": [("self.coeff_count", "coeffCount", "Nat"), ("self.coeff_count_power", "coeffCountPower", "Nat")]},
+]
+
+# Gen/EvalFns.lean (phase 3): src/evaluator.rs beyond pure validity checks
+# level walk (C05): the objects are opaque; the TRUSTED reading of the accessors / effects is spelled out in the skeleton tables:
+#   chain indices identify levels (`a.parms_id() != b` <=> their chain indices differ), one `mod_switch_to_next_inplace` /
+#   `mod_switch_scale_to_next_internal` moves the ciphertext exactly one chain index down (or panics); the generated function returns the
+#   trace of chain indices visited.  Fuel 2^64: a chain index is a usize, the walk cannot take more steps.
+WALK_FUEL = 18446744073709551616
+TABLE_EVAL = [
+    {"file": EV, "fn": "balance_correction_factors", "impl": "Evaluator", "model": "balanceCorrectionFactors (Model/Evaluator.lean)",
+     "loops": [{"fuel": 200, "exhausted": "error"}]},
+    {"file": EV, "fn": "mod_switch_to_inplace", "impl": "Evaluator", "model": "switchSteps cur tgt (Model/Evaluator.lean)",
+     "loops": [{"fuel": WALK_FUEL, "exhausted": "error"}],
+     "skeleton": {"sig": "fn mod_switch_to_inplace(cur0: usize, tgt: usize) -> Vec<usize>",
+                  "prologue": "let mut cur = cur0; let mut trace = vec![];", "epilogue": "trace",
+                  "handles": ["self.get_context_data(encrypted.parms_id())", "self.get_context_data(parms_id)"],
+                  "exprs": {"self.get_context_data(encrypted.parms_id()).chain_index()": "cur",
+                            "self.get_context_data(parms_id).chain_index()": "tgt",
+                            "encrypted.parms_id() != parms_id": "cur != tgt"},
+                  "effects": {"self.mod_switch_to_next_inplace(encrypted)": "cur = cur - 1; trace.push(cur);"}}},
 ]
 
 FILES += [
@@ -2223,6 +2607,14 @@ FILES += [
     ("NttFns.lean", {"ns": "GenN", "imports": ["Heathcliff.Gen.WordFns"], "table": TABLE_NTT, "opens": ["HC.GenW"]}),
     ("GaloisFns.lean", {"ns": "GenG", "imports": ["Heathcliff.Gen.WordFns"], "table": TABLE_GALOIS, "opens": ["HC.GenW"]}),
     ("ValidFns.lean", {"ns": "GenV", "imports": ["Heathcliff.Gen.WordFns", "Heathcliff.Model.Scheme"], "table": TABLE_VALID, "opens": ["HC.GenW"]}),
+    ("LadderFns.lean", {"ns": "GenL", "ladder": True, "imports": ["Heathcliff.Gen.WordFns"], "file": "src/context.rs", "impl": None, "fn": "validate",
+                        "conds": {
+        "InvalidCoeffModulusSize": {"consts": {"HE_COEFF_MOD_COUNT_MAX": UB, "HE_COEFF_MOD_COUNT_MIN": UB}, "abstract": [("coeff_modulus.len()", "k", "Nat")]},
+        "InvalidCoeffModulusBitCount": {"consts": {"HE_USER_MOD_BIT_COUNT_MAX": UB, "HE_USER_MOD_BIT_COUNT_MIN": UB}, "abstract": [("coeff_modulus[i].value()", "q", "Nat")]},
+        "InvalidPolyModulusDegree": {"consts": {"HE_POLY_MOD_DEGREE_MIN": UB, "HE_POLY_MOD_DEGREE_MAX": UB}, "abstract": [("poly_modulus_degree", "n", "Nat")]},
+        "InvalidPlainModulusBitCount": {"consts": {"HE_PLAIN_MOD_BIT_COUNT_MAX": UB, "HE_PLAIN_MOD_BIT_COUNT_MIN": UB}, "abstract": [("plain_modulus.value()", "t", "Nat")]},
+                        }}),
+    ("EvalFns.lean", {"ns": "GenE", "imports": ["Heathcliff.Gen.WordFns"], "table": TABLE_EVAL, "opens": ["HC.GenW"]}),
 ]
 
 if __name__ == "__main__":
